@@ -6,7 +6,13 @@ pyspark/testing/utils.py  ->  Gen/RowCompat.lean  (namespace Sqlframe.Gen.RowCom
 Two kinds of facts are extracted (Python `ast`, nothing is imported):
   * decisions the hand transcriptions in Impl/C19Row.lean branch on: the comparison guarding `Row.__call__`,
     whether `Row.__new__(**kwargs)` / `_create_row` convert Decimal to float, whether args+kwargs is rejected,
-    the defaults of checkRowOrder / rtol / atol (both packages), the shapes of the helper's sort / zip steps;
+    the prefix `Row.__getattr__` refuses, the index types `Row.__getitem__` hands to the tuple, what the two accessors
+    raise when the name is no field / the row is short, the one attribute `__setattr__` lets through, the default and
+    the container kinds of `asDict(recursive)`, the class's bases and every dunder it defines beyond pyspark's;
+    the defaults of checkRowOrder / rtol / atol (both packages); per container kind of `compare_vals` which
+    conjuncts are present (length, key set) and HOW a map's values are paired (by key / by position); how each of the
+    two row lists is sorted (a sorted copy / the caller's list in place / not at all); the None guards and when the
+    schemas are compared;
   * SOURCE IDENTITY: for each Row method and each (nested) helper function, is sqlframe's body the same as
     pyspark's after erasing annotations, docstrings, the `t.` typing prefix and the exception constructors
     (RowError / SQLFrameException / DataFrameDiffError / SchemaDiffError  vs  PySpark*Error)?  The names that are
@@ -109,6 +115,288 @@ def _defaults(fn: ast.FunctionDef, ob: str) -> t.Dict[str, str]:
 CMP = {ast.Gt: "gt", ast.GtE: "ge", ast.Lt: "lt", ast.LtE: "le", ast.NotEq: "ne", ast.Eq: "eq"}
 
 
+EXC = {
+    "AttributeError": "attributeError",
+    "KeyError": "keyError",
+    "IndexError": "indexError",
+    "ValueError": "valueError",
+    "TypeError": "typeError",
+    "RuntimeError": "runtimeError",
+    "RowError": "domainError",
+    "SQLFrameException": "domainError",
+}
+
+
+def _nodoc(fn: ast.FunctionDef) -> t.List[ast.stmt]:
+    return [s for s in fn.body if not (isinstance(s, ast.Expr) and isinstance(s.value, ast.Constant))]
+
+
+def _raised(st: ast.stmt, ob: str) -> str:
+    """the exception class of `raise X(...)`, as a Gen.RowCompat.Exc constructor"""
+    if not (isinstance(st, ast.Raise) and isinstance(st.exc, ast.Call) and isinstance(st.exc.func, ast.Name) and st.cause is None):
+        raise Untranslatable(ob, f"expected `raise X(...)`, found {_u(st)[:60]!r}")
+    if st.exc.func.id not in EXC:
+        raise Untranslatable(ob, f"unknown exception class {st.exc.func.id}")
+    return EXC[st.exc.func.id]
+
+
+def _handlers(tr: ast.Try, ob: str) -> t.Dict[str, str]:
+    """what a lookup `self.__fields__.index(item)` / tuple index ends in: per built-in exception the class that
+    reaches the caller (the exception itself when no handler names it)"""
+    if tr.orelse or tr.finalbody:
+        raise Untranslatable(ob, "try with else/finally")
+    out = {"IndexError": "indexError", "ValueError": "valueError"}
+    seen: t.Set[str] = set()
+    for h in tr.handlers:
+        if not isinstance(h.type, ast.Name) or h.type.id not in out or len(h.body) != 1:
+            raise Untranslatable(ob, f"unsupported handler {_u(h)[:80]!r}")
+        if h.type.id in seen:
+            continue  # a second handler for the same class is dead code
+        seen.add(h.type.id)
+        out[h.type.id] = _raised(h.body[0], ob)
+    return out
+
+
+def _accessors(row: ast.ClassDef) -> t.Dict[str, t.Any]:
+    d: t.Dict[str, t.Any] = {}
+    # __getattr__: `if item.startswith(<lit>): raise AttributeError(item)` then the lookup in __fields__
+    ob = OB + ".Row.__getattr__"
+    b = _nodoc(find_func(row.body, "__getattr__"))
+    if not (len(b) == 2 and isinstance(b[0], ast.If) and isinstance(b[1], ast.Try) and not b[0].orelse and len(b[0].body) == 1):
+        raise Untranslatable(ob, "expected a prefix guard followed by one try statement")
+    g = b[0].test
+    if not (
+        isinstance(g, ast.Call)
+        and _u(g.func) == "item.startswith"
+        and len(g.args) == 1
+        and not g.keywords
+        and isinstance(g.args[0], ast.Constant)
+        and isinstance(g.args[0].value, str)
+    ):
+        raise Untranslatable(ob, f"unsupported guard {_u(g)[:80]!r}")
+    d["getattrGuardPrefix"] = g.args[0].value
+    d["getattrGuardRaises"] = _raised(b[0].body[0], ob)
+    if [_u(x) for x in b[1].body] != ["idx = self.__fields__.index(item)", "return self[idx]"]:
+        raise Untranslatable(ob, f"unsupported lookup {[_u(x) for x in b[1].body]!r}")
+    h = _handlers(b[1], ob)
+    d["getattrNoField"], d["getattrShort"] = h["ValueError"], h["IndexError"]
+
+    # __getitem__: `if isinstance(item, (int, slice)): return super().__getitem__(item)` then the lookup
+    ob = OB + ".Row.__getitem__"
+    b = _nodoc(find_func(row.body, "__getitem__"))
+    if not (len(b) == 2 and isinstance(b[0], ast.If) and isinstance(b[1], ast.Try) and not b[0].orelse):
+        raise Untranslatable(ob, "expected an isinstance guard followed by one try statement")
+    g = b[0].test
+    if not (isinstance(g, ast.Call) and _u(g.func) == "isinstance" and len(g.args) == 2 and _u(g.args[0]) == "item"):
+        raise Untranslatable(ob, f"unsupported guard {_u(g)[:80]!r}")
+    ty = g.args[1]
+    names = [_u(x) for x in ty.elts] if isinstance(ty, ast.Tuple) else [_u(ty)]
+    if not set(names) <= {"int", "slice"}:
+        raise Untranslatable(ob, f"index types {names!r}")
+    d["getitemInt"], d["getitemSlice"] = "int" in names, "slice" in names
+    if [_u(x) for x in b[0].body] != ["return super(Row, self).__getitem__(item)"]:
+        raise Untranslatable(ob, f"unsupported index branch {[_u(x) for x in b[0].body]!r}")
+    if [_u(x) for x in b[1].body] != ["idx = self.__fields__.index(item)", "return super(Row, self).__getitem__(idx)"]:
+        raise Untranslatable(ob, f"unsupported lookup {[_u(x) for x in b[1].body]!r}")
+    h = _handlers(b[1], ob)
+    d["getitemNoField"], d["getitemShort"] = h["ValueError"], h["IndexError"]
+
+    # __setattr__: `if key != <lit>: raise RuntimeError(...)`; `self.__dict__[key] = value`
+    ob = OB + ".Row.__setattr__"
+    b = _nodoc(find_func(row.body, "__setattr__"))
+    if not (
+        len(b) == 2
+        and isinstance(b[0], ast.If)
+        and not b[0].orelse
+        and len(b[0].body) == 1
+        and isinstance(b[0].test, ast.Compare)
+        and _u(b[0].test.left) == "key"
+        and len(b[0].test.ops) == 1
+        and isinstance(b[0].test.ops[0], ast.NotEq)
+        and isinstance(b[0].test.comparators[0], ast.Constant)
+        and isinstance(b[0].test.comparators[0].value, str)
+        and _u(b[1]) == "self.__dict__[key] = value"
+    ):
+        raise Untranslatable(ob, "unsupported body")
+    d["setattrAllowed"] = b[0].test.comparators[0].value
+    d["setattrRaises"] = _raised(b[0].body[0], ob)
+
+    # asDict: default of `recursive`; which container kinds `conv` descends into
+    ob = OB + ".Row.asDict"
+    fn = find_func(row.body, "asDict")
+    if [a.arg for a in fn.args.args] != ["self", "recursive"] or len(fn.args.defaults) != 1 or not isinstance(fn.args.defaults[0], ast.Constant) or not isinstance(fn.args.defaults[0].value, bool):
+        raise Untranslatable(ob, "unsupported signature")
+    d["asDictRecursiveDefault"] = fn.args.defaults[0].value
+    b = _nodoc(fn)
+    if not (
+        len(b) == 2
+        and isinstance(b[0], ast.If)
+        and _u(b[0].test) == "not hasattr(self, '__fields__')"
+        and not b[0].orelse
+        and len(b[0].body) == 1
+        and isinstance(b[1], ast.If)
+        and _u(b[1].test) == "recursive"
+    ):
+        raise Untranslatable(ob, "unsupported body")
+    d["asDictNoFields"] = _raised(b[0].body[0], ob)
+    if [_u(x) for x in b[1].orelse] != ["return dict(zip(self.__fields__, self))"]:
+        raise Untranslatable(ob, f"unsupported non-recursive branch {[_u(x) for x in b[1].orelse]!r}")
+    rb = b[1].body
+    if not (len(rb) == 2 and isinstance(rb[0], ast.FunctionDef) and rb[0].name == "conv" and _u(rb[1]) == "return dict(zip(self.__fields__, (conv(o) for o in self)))"):
+        raise Untranslatable(ob, "unsupported recursive branch")
+    want = {
+        "Row": "return obj.asDict(True)",
+        "list": "return [conv(o) for o in obj]",
+        "dict": "return dict(((k, conv(v)) for k, v in obj.items()))",
+    }
+    kinds: t.List[str] = []
+    cb = _nodoc(rb[0])
+    if len(cb) != 1:
+        raise Untranslatable(ob, "conv: expected one if/elif chain")
+    node: t.Any = cb[0]
+    while True:
+        if isinstance(node, ast.If):
+            tst = node.test
+            if not (isinstance(tst, ast.Call) and _u(tst.func) == "isinstance" and len(tst.args) == 2 and _u(tst.args[0]) == "obj" and _u(tst.args[1]) in want):
+                raise Untranslatable(ob, f"conv: unsupported test {_u(tst)[:80]!r}")
+            k = _u(tst.args[1])
+            if [_u(x) for x in node.body] != [want[k]] or k in kinds:
+                raise Untranslatable(ob, f"conv: unsupported branch for {k}: {[_u(x) for x in node.body]!r}")
+            kinds.append(k)
+            if len(node.orelse) != 1:
+                raise Untranslatable(ob, "conv: the chain must end in `else: return obj`")
+            node = node.orelse[0]
+        else:
+            if _u(node) != "return obj":
+                raise Untranslatable(ob, f"conv: unsupported final branch {_u(node)[:60]!r}")
+            break
+    d["convRow"], d["convList"], d["convDict"] = "Row" in kinds, "list" in kinds, "dict" in kinds
+    return d
+
+
+CONJ = {
+    "len(val1) == len(val2)": "lenEq",
+    "len(val1.keys()) == len(val2.keys())": "lenEq",
+    "val1.keys() == val2.keys()": "keysEq",
+    "all((compare_vals(x, y) for x, y in zip(val1, val2)))": "zipAll",
+    "all((compare_vals(val1[k], val2[k]) for k in val1.keys()))": "byKey",
+    "all((compare_vals(val1[k], val2[k]) for k in val1))": "byKey",
+    "all((compare_vals(x, y) for x, y in zip(val1.values(), val2.values())))": "byPosition",
+}
+
+
+def _compare_vals(fn: ast.FunctionDef) -> t.Dict[str, t.Any]:
+    """the container branches of compare_vals: which conjuncts each has, and how a map's values are paired"""
+    ob = OB + ".compare_vals"
+    b = _nodoc(fn)
+    if not (len(b) == 2 and isinstance(b[0], ast.If) and _u(b[1]) == "return True"):
+        raise Untranslatable(ob, "expected one if/elif chain followed by `return True`")
+    kinds: t.Dict[str, t.List[str]] = {}
+    order: t.List[str] = []
+    node: t.Any = b[0]
+    final: t.List[ast.stmt] = []
+    while True:
+        tst = _Norm().visit(ast.parse(_u(node.test), mode="eval").body)
+        m = re.fullmatch(r"isinstance\(val1, (\w+)\) and isinstance\(val2, (\w+)\)", _u(tst))
+        if not m or m.group(1) != m.group(2) or m.group(1) not in ("list", "Row", "dict", "float") or m.group(1) in order:
+            raise Untranslatable(ob, f"unsupported test {_u(node.test)[:80]!r}")
+        k = m.group(1)
+        order.append(k)
+        if k == "float":
+            d_float = [_u(x) for x in node.body] == ["if abs(val1 - val2) > atol + rtol * abs(val2):\n    return False"]
+        else:
+            if not (len(node.body) == 1 and isinstance(node.body[0], ast.Return) and node.body[0].value is not None):
+                raise Untranslatable(ob, f"{k}: expected a single return")
+            v = node.body[0].value
+            conj = v.values if isinstance(v, ast.BoolOp) and isinstance(v.op, ast.And) else [v]
+            names = []
+            for c in conj:
+                if _u(c) not in CONJ:
+                    raise Untranslatable(ob, f"{k}: unsupported conjunct {_u(c)[:100]!r}")
+                names.append(CONJ[_u(c)])
+            kinds[k] = names
+        if not node.orelse:
+            raise Untranslatable(ob, "the chain has no final else")
+        if len(node.orelse) == 1 and isinstance(node.orelse[0], ast.If) and _u(node.orelse[0].test).startswith("isinstance("):
+            node = node.orelse[0]
+            continue
+        final = node.orelse
+        break
+    if order != ["list", "Row", "dict", "float"]:
+        raise Untranslatable(ob, f"container kinds {order!r}")
+    if [_u(x) for x in final] != ["if val1 != val2:\n    return False"]:
+        raise Untranslatable(ob, f"unsupported final branch {[_u(x) for x in final]!r}")
+    out: t.Dict[str, t.Any] = {"floatFormula": d_float}
+    for k, allowed, need in (("list", {"lenEq", "zipAll"}, {"zipAll"}), ("Row", {"lenEq", "zipAll"}, {"zipAll"})):
+        if not (need <= set(kinds[k]) <= allowed) or kinds[k][-1] != "zipAll":
+            raise Untranslatable(ob, f"{k}: conjuncts {kinds[k]!r}")
+    pair = [c for c in kinds["dict"] if c in ("byKey", "byPosition")]
+    if len(pair) != 1 or kinds["dict"][-1] != pair[0] or not set(kinds["dict"]) <= {"lenEq", "keysEq", "byKey", "byPosition"}:
+        raise Untranslatable(ob, f"dict: conjuncts {kinds['dict']!r}")
+    out["listLenChecked"] = "lenEq" in kinds["list"]
+    out["rowZipTruncates"] = "lenEq" not in kinds["Row"]
+    out["dictLenChecked"] = "lenEq" in kinds["dict"]
+    out["dictKeysChecked"] = "keysEq" in kinds["dict"]
+    out["dictPairing"] = pair[0]
+    return out
+
+
+SORT_KEYS = ("lambda x: str(x)", "str", "lambda x: repr(x)", "repr")   # str(row) is repr(row): Row defines __repr__ only
+
+
+def _tail(adf: ast.FunctionDef) -> t.Dict[str, t.Any]:
+    """what assertDataFrameEqual does around the row comparison: None guards, schema comparison, conversion of
+    the two arguments to lists, the sort of each list, the final comparison"""
+    ob = OB + ".assertDataFrameEqual"
+    tail = [s for s in _nodoc(adf) if not isinstance(s, (ast.FunctionDef, ast.Import, ast.ImportFrom))]
+    d: t.Dict[str, t.Any] = {"noneBothAccepts": False, "noneOneRaises": False, "schemaWhen": "never", "sortActual": "none", "sortExpected": "none"}
+    conv_seen = {"actual": False, "expected": False}
+    for s in tail[:-1]:
+        src = _u(s)
+        if isinstance(s, ast.If) and _u(s.test) == "actual is None and expected is None":
+            if [_u(x) for x in s.body] != ["return True"] or len(s.orelse) != 1 or not isinstance(s.orelse[0], ast.If):
+                raise Untranslatable(ob, "unsupported None guard")
+            e = s.orelse[0]
+            if _u(e.test) != "actual is None or expected is None" or e.orelse or len(e.body) != 1 or not isinstance(e.body[0], ast.Raise):
+                raise Untranslatable(ob, "unsupported None guard (second branch)")
+            d["noneBothAccepts"], d["noneOneRaises"] = True, True
+        elif isinstance(s, ast.If) and [_u(x) for x in s.body] == ["assertSchemaEqual(actual.schema, expected.schema)"] and not s.orelse:
+            tests = {
+                "not isinstance(actual, list) and (not isinstance(expected, list))": "bothFrames",
+                "not isinstance(expected, list)": "expectedFrame",
+            }
+            if _u(s.test) not in tests:
+                raise Untranslatable(ob, f"unsupported schema condition {_u(s.test)[:80]!r}")
+            d["schemaWhen"] = tests[_u(s.test)]
+        elif isinstance(s, ast.If) and _u(s.test) in ("not isinstance(actual, list)", "not isinstance(expected, list)"):
+            w = "actual" if "actual" in _u(s.test) else "expected"
+            if [_u(x) for x in s.body] != [f"{w}_list = {w}.collect()"] or [_u(x) for x in s.orelse] != [f"{w}_list = {w}"]:
+                raise Untranslatable(ob, f"unsupported conversion of {w}: {src[:100]!r}")
+            conv_seen[w] = True
+        elif isinstance(s, ast.If) and _u(s.test) == "not checkRowOrder" and not s.orelse:
+            for x in s.body:
+                sx = _u(x)
+                hit = None
+                for w in ("actual", "expected"):
+                    for key in SORT_KEYS:
+                        if sx == f"{w}_list = sorted({w}_list, key={key})":
+                            hit = (w, "copy")
+                        elif sx == f"{w}_list.sort(key={key})":
+                            hit = (w, "inPlace")
+                if hit is None:
+                    raise Untranslatable(ob, f"unsupported sort step {sx[:80]!r}")
+                d["sort" + hit[0].capitalize()] = hit[1]
+        else:
+            raise Untranslatable(ob, f"unsupported statement {src[:80]!r}")
+    if not all(conv_seen.values()):
+        raise Untranslatable(ob, "the conversion of actual / expected to lists was not found")
+    if not tail or _u(tail[-1]) != "assert_rows_equal(actual_list, expected_list)":
+        raise Untranslatable(ob, f"unexpected final statement {_u(tail[-1])[:80] if tail else None!r}")
+    d["comparesLists"] = True
+    d["sortsBoth"] = d["sortActual"] != "none" and d["sortExpected"] != "none"
+    return d
+
+
 def extract(repo: str) -> t.Dict[str, t.Any]:
     sf_types = parse(repo, "sqlframe/base/types.py")
     sf_test = parse(repo, "sqlframe/testing/utils.py")
@@ -165,6 +453,11 @@ def extract(repo: str) -> t.Dict[str, t.Any]:
         raise Untranslatable(OB + ".Row.__call__", "unsupported body")
     d["callGuard"] = CMP[type(cb[0].test.ops[0])]
 
+
+    # ---- __getattr__ / __getitem__ / __setattr__ / asDict ---------------------------------------
+    d.update(_accessors(sf_row))
+    d["rowBases"] = [_u(b) for b in sf_row.bases]
+
     # ---- source identity of the Row methods -----------------------------------------------------
     same_methods: t.List[str] = []
     diff_methods: t.List[str] = []
@@ -184,6 +477,19 @@ def extract(repo: str) -> t.Dict[str, t.Any]:
     ps_names = {n.name for n in ps_row.body if isinstance(n, ast.FunctionDef)}
     d["extraMethods"] = sorted(sf_names - ps_names)
     d["missingMethods"] = sorted(ps_names - sf_names)
+    # dunder methods / class-level assignments beyond pyspark's change the tuple semantics the model relies on
+    d["extraDunders"] = sorted(n for n in sf_names - ps_names if n.startswith("__"))
+
+    def _assigned(cls: ast.ClassDef) -> t.Set[str]:
+        out: t.Set[str] = set()
+        for n in cls.body:
+            if isinstance(n, ast.Assign):
+                out |= {_u(x) for x in n.targets}
+            elif isinstance(n, ast.AnnAssign):
+                out.add(_u(n.target))
+        return out
+
+    d["classAssigns"] = sorted(_assigned(sf_row) - _assigned(ps_row))
 
     # ---- the assertion helpers ------------------------------------------------------------------
     sf_adf, ps_adf = find_func(sf_test.body, "assertDataFrameEqual"), find_func(ps_test.body, "assertDataFrameEqual")
@@ -198,28 +504,33 @@ def extract(repo: str) -> t.Dict[str, t.Any]:
         else:
             diff_funcs.append(f)
     d["sameFuncs"], d["diffFuncs"] = same_funcs, diff_funcs
-    # the tail of assertDataFrameEqual: conversion to lists, optional sort, comparison
-    tail = [_u(s) for s in sf_adf.body if not isinstance(s, (ast.FunctionDef, ast.Import, ast.ImportFrom))]
+
+    # the statements of assertSchemaEqual itself (around its nested functions), exception classes erased
+    class _AnyRaise(ast.NodeTransformer):
+        def visit_Raise(self, node: ast.Raise) -> ast.AST:
+            return ast.Raise(exc=ast.Name(id="E", ctx=ast.Load()), cause=None)
+
+    def _top(fn: ast.FunctionDef) -> t.List[str]:
+        import copy
+
+        tail = [x for x in _nodoc(fn) if not isinstance(x, (ast.FunctionDef, ast.Import, ast.ImportFrom))]
+        return [_u(ast.fix_missing_locations(_AnyRaise().visit(_Norm().visit(copy.deepcopy(x))))) for x in tail]
+
+    d["schemaTopSame"] = _top(sf_ase) == _top(ps_ase)
+    # the tail of assertDataFrameEqual: None guards, schema comparison, conversion to lists, optional sort, comparison
+    d.update(_tail(sf_adf))
     sort_stmt = "if not checkRowOrder:\n    actual_list = sorted(actual_list, key=lambda x: str(x))\n    expected_list = sorted(expected_list, key=lambda x: str(x))"
-    d["sortsBoth"] = sort_stmt in tail
-    d["comparesLists"] = bool(tail) and tail[-1] == "assert_rows_equal(actual_list, expected_list)"
-    if not d["comparesLists"]:
-        raise Untranslatable(OB + ".assertDataFrameEqual", f"unexpected final statement {tail[-1] if tail else None!r}")
-    if not d["sortsBoth"]:
-        srt = [s for s in tail if "sorted(" in s]
-        if srt:
-            raise Untranslatable(OB + ".assertDataFrameEqual", f"unsupported sort step {srt[0][:80]!r}")
     ps_tail = [_u(s) for s in ps_adf.body if not isinstance(s, (ast.FunctionDef, ast.Import, ast.ImportFrom))]
     d["psSortsBoth"] = sort_stmt in ps_tail
     # decisions inside compare_vals / assert_rows_equal the Lean transcription branches on
-    cv = _u(sf_nested["compare_vals"]) if "compare_vals" in sf_nested else ""
-    d["listLenChecked"] = "len(val1) == len(val2) and all((compare_vals(x, y) for x, y in zip(val1, val2)))" in cv
-    d["rowZipTruncates"] = "return all((compare_vals(x, y) for x, y in zip(val1, val2)))" in cv
-    d["dictKeysChecked"] = "len(val1.keys()) == len(val2.keys()) and val1.keys() == val2.keys() and all((compare_vals(val1[k], val2[k]) for k in val1.keys()))" in cv
-    d["floatFormula"] = "if abs(val1 - val2) > atol + rtol * abs(val2):" in cv
+    if "compare_vals" not in sf_nested:
+        raise Untranslatable(OB + ".compare_vals", "not found")
+    d.update(_compare_vals(sf_nested["compare_vals"]))
     are = _u(sf_nested["assert_rows_equal"]) if "assert_rows_equal" in sf_nested else ""
     d["zipLongest"] = "zipped = list(zip_longest(rows1, rows2))" in are
-    for k in ("listLenChecked", "rowZipTruncates", "dictKeysChecked", "floatFormula", "zipLongest"):
+    if not d["zipLongest"] and "zipped = list(zip(rows1, rows2))" not in are:
+        raise Untranslatable(OB + ".assert_rows_equal", "how the two row lists are zipped was not recognised")
+    for k in ("listLenChecked", "rowZipTruncates", "dictLenChecked", "dictKeysChecked", "floatFormula", "zipLongest"):
         if not d[k] and "compare_vals" in same_funcs and "assert_rows_equal" in same_funcs:
             raise Untranslatable(OB, f"translator out of sync: {k} not recognised although the source equals pyspark's")
     return d
@@ -242,6 +553,43 @@ def gen_rowcompat(repo: str) -> str:
         "",
         "inductive Cmp | gt | ge | lt | le | ne | eq",
         "  deriving DecidableEq, Repr, Inhabited",
+        "/-- exception classes (`domainError` = the package's own RowError / SQLFrameException) -/",
+        "inductive Exc | attributeError | keyError | indexError | valueError | typeError | runtimeError | domainError",
+        "  deriving DecidableEq, Repr, Inhabited",
+        "/-- how compare_vals pairs the values of two maps -/",
+        "inductive Pairing | byKey | byPosition",
+        "  deriving DecidableEq, Repr, Inhabited",
+        "/-- how assertDataFrameEqual sorts one of its row lists when checkRowOrder is off -/",
+        "inductive SortMode | copy | inPlace | none",
+        "  deriving DecidableEq, Repr, Inhabited",
+        "/-- when assertDataFrameEqual compares the schemas of its arguments -/",
+        "inductive SchemaWhen | bothFrames | expectedFrame | never",
+        "  deriving DecidableEq, Repr, Inhabited",
+        "",
+        "/-- `Row.__getattr__`: `if item.startswith(<prefix>): raise <getattrGuardRaises>` -/",
+        f"def getattrGuardPrefix : String := {lean_str(d['getattrGuardPrefix'])}",
+        f"def getattrGuardRaises : Exc := .{d['getattrGuardRaises']}",
+        "/-- what reaches the caller of `row.name` when the name is no field / the row has fewer values than fields -/",
+        f"def getattrNoField : Exc := .{d['getattrNoField']}",
+        f"def getattrShort : Exc := .{d['getattrShort']}",
+        "/-- `Row.__getitem__`: which index types go to the tuple; the same two situations for `row[name]` -/",
+        f"def getitemInt : Bool := {_b(d['getitemInt'])}",
+        f"def getitemSlice : Bool := {_b(d['getitemSlice'])}",
+        f"def getitemNoField : Exc := .{d['getitemNoField']}",
+        f"def getitemShort : Exc := .{d['getitemShort']}",
+        "/-- `Row.__setattr__`: the one attribute name let through, what every other name raises -/",
+        f"def setattrAllowed : String := {lean_str(d['setattrAllowed'])}",
+        f"def setattrRaises : Exc := .{d['setattrRaises']}",
+        "/-- `Row.asDict`: default of `recursive`, what a Row class raises, which containers `conv` descends into -/",
+        f"def asDictRecursiveDefault : Bool := {_b(d['asDictRecursiveDefault'])}",
+        f"def asDictNoFields : Exc := .{d['asDictNoFields']}",
+        f"def convRow : Bool := {_b(d['convRow'])}",
+        f"def convList : Bool := {_b(d['convList'])}",
+        f"def convDict : Bool := {_b(d['convDict'])}",
+        "/-- bases of the class; dunder methods / class-level names sqlframe's Row defines beyond pyspark's -/",
+        f"def rowBases : List String := {_ls(d['rowBases'])}",
+        f"def extraDunders : List String := {_ls(d['extraDunders'])}",
+        f"def classAssigns : List String := {_ls(d['classAssigns'])}",
         "",
         "/-- `Row.__call__`: `if len(args) <callGuard> len(self): raise` -/",
         f"def callGuard : Cmp := .{d['callGuard']}",
@@ -260,6 +608,8 @@ def gen_rowcompat(repo: str) -> str:
         "/-- nested functions of assertDataFrameEqual / assertSchemaEqual whose source equals pyspark's -/",
         f"def sameFuncs : List String := {_ls(d['sameFuncs'])}",
         f"def diffFuncs : List String := {_ls(d['diffFuncs'])}",
+        "/-- the statements of assertSchemaEqual around its nested functions equal pyspark's (exception classes erased) -/",
+        f"def schemaTopSame : Bool := {_b(d['schemaTopSame'])}",
         "",
         f"def sfCheckRowOrderDefault : String := {lean_str(d['sfDefaults']['checkRowOrder'])}",
         f"def sfRtolDefault : String := {lean_str(d['sfDefaults']['rtol'])}",
@@ -273,7 +623,14 @@ def gen_rowcompat(repo: str) -> str:
         f"def psSortsBoth : Bool := {_b(d['psSortsBoth'])}",
         f"def listLenChecked : Bool := {_b(d['listLenChecked'])}",
         f"def rowZipTruncates : Bool := {_b(d['rowZipTruncates'])}",
+        f"def dictLenChecked : Bool := {_b(d['dictLenChecked'])}",
         f"def dictKeysChecked : Bool := {_b(d['dictKeysChecked'])}",
+        f"def dictPairing : Pairing := .{d['dictPairing']}",
+        f"def sortActual : SortMode := .{d['sortActual']}",
+        f"def sortExpected : SortMode := .{d['sortExpected']}",
+        f"def noneBothAccepts : Bool := {_b(d['noneBothAccepts'])}",
+        f"def noneOneRaises : Bool := {_b(d['noneOneRaises'])}",
+        f"def schemaWhen : SchemaWhen := .{d['schemaWhen']}",
         f"def floatFormula : Bool := {_b(d['floatFormula'])}",
         f"def zipLongest : Bool := {_b(d['zipLongest'])}",
         "",
